@@ -50,6 +50,16 @@ SameConc(x, y) ==
         /\ BEq(a.val, b.val) /\ a.outbound = b.outbound /\ BEq(a.push, b.push) /\ a.nh = b.nh
         /\ a.hasnext = b.hasnext
 
+\* outputs the case asked to carry one script really do, and the others differ
+EffSlot(ab, i) == IF ab.outs[i].slot > 0 THEN ab.outs[i].slot ELSE i
+SameScripts(ab, st) ==
+  \A i, j \in DOMAIN ab.outs :
+     (i < j /\ ab.outs[i].kind = ab.outs[j].kind) =>
+        IF ab.outs[i].slot > 0 /\ ab.outs[i].slot = ab.outs[j].slot
+        THEN st.c.outs[i].spk = st.c.outs[j].spk
+        ELSE (ab.outs[i].kind \notin FundKinds /\ EffSlot(ab, i) # EffSlot(ab, j))
+               => st.c.outs[i].spk # st.c.outs[j].spk
+
 \* one step, given the ghost before it
 JStep(id, k, ab, st, acc) ==
   LET c    == Conc(st)
@@ -75,7 +85,7 @@ JStep(id, k, ab, st, acc) ==
        kinds |-> [j \in DOMAIN ab.outs |-> ab.outs[j].kind],
        nonben |-> SetToSeq({j - 1 : j \in NonBen(c)}),
        conf |-> st.skipped \/ (conf1 /\ (a2.res = "skipped" \/ conf2)),
-       same |-> SameConc(Facts(ab), c),
+       same |-> SameConc(Facts(ab), c) /\ SameScripts(ab, st),
        panic |-> v1.t = "panic" \/ a2.res = "panic",
        stricter |-> refused /\ rules = {},
        \* the rule that alone makes the case must-refuse (see PrimaryRules) and whether the real code refused
